@@ -66,3 +66,104 @@ pub proof fn lemma_lead_step(b0: u8, b: u8, m: u8, k: u8)
                 assert(b0 >= 0xfe && (b0 & 0x01) & 0x01 == 0 ==> b0 < 0xff) by(bit_vector); }
     else { assert((b0 & 0) & 0 == 0) by(bit_vector); }
 }
+
+// ---- round trip at the level of the two contracts: what atom_size_blob (+ the atom bytes)
+// writes, the consensus decoder dec_atom (= atom_from_stream's postcondition) reads back
+pub open spec fn enc_atom(a: Seq<u8>) -> Seq<u8> {
+    if a.len() == 0 { seq![0x80u8] }
+    else if a.len() == 1 && a[0] <= 0x7f { a }
+    else { size_prefix(a.len() as u64) + a }
+}
+
+pub proof fn lemma_be_push(s: Seq<u8>, x: u8)
+    ensures be_unsigned(s.push(x)) == be_unsigned(s) * 256 + x as int
+{
+    assert(s.push(x).drop_last() =~= s);
+    assert(s.push(x).last() == x);
+}
+
+// the prefix written for length n decodes to n, with exactly size_prefix_len(n) leading one bits
+pub proof fn lemma_prefix_decodes(n: u64)
+    requires 1 <= n < 0x400000000
+    ensures
+        size_prefix(n).len() == size_prefix_len(n),
+        lead_ones(size_prefix(n)[0]) == size_prefix_len(n),
+        size_prefix(n)[0] > 0x80 || (size_prefix(n)[0] == 0x80 && false),
+        be_unsigned(seq![size_prefix(n)[0] & low_mask(size_prefix_len(n))] + size_prefix(n).subrange(1, size_prefix_len(n))) == n as int,
+{
+    let p = size_prefix(n);
+    let k = size_prefix_len(n);
+    let b0 = p[0];
+    if n < 0x40 {
+        assert(((0x80u64 | n) as u8) > 0x80 && ((0x80u64 | n) as u8) < 0xc0 && (((0x80u64 | n) as u8) & 0x7f) as u64 == n) by(bit_vector) requires 1 <= n < 0x40;
+        assert(p.subrange(1, 1) =~= Seq::<u8>::empty());
+        assert(seq![b0 & 0x7f] + p.subrange(1, 1) =~= seq![b0 & 0x7f]);
+        lemma_be_single(b0 & 0x7f);
+    } else if n < 0x2000 {
+        assert(((0xC0u64 | (n >> 8)) as u8) >= 0xc0 && ((0xC0u64 | (n >> 8)) as u8) < 0xe0
+            && ((((0xC0u64 | (n >> 8)) as u8) & 0x3f) as u64) * 256 + (((n & 0xff) as u8) as u64) == n) by(bit_vector) requires 0x40 <= n < 0x2000;
+        let s = seq![b0 & 0x3f];
+        assert(seq![b0 & 0x3f] + p.subrange(1, 2) =~= s.push(p[1]));
+        lemma_be_single(b0 & 0x3f);
+        lemma_be_push(s, p[1]);
+    } else if n < 0x100000 {
+        assert(((0xE0u64 | (n >> 16)) as u8) >= 0xe0 && ((0xE0u64 | (n >> 16)) as u8) < 0xf0
+            && (((((0xE0u64 | (n >> 16)) as u8) & 0x1f) as u64) * 256 + ((((n >> 8) & 0xff) as u8) as u64)) * 256 + (((n & 0xff) as u8) as u64) == n) by(bit_vector) requires 0x2000 <= n < 0x100000;
+        let s1 = seq![b0 & 0x1f];
+        let s2 = s1.push(p[1]);
+        assert(seq![b0 & 0x1f] + p.subrange(1, 3) =~= s2.push(p[2]));
+        lemma_be_single(b0 & 0x1f);
+        lemma_be_push(s1, p[1]);
+        lemma_be_push(s2, p[2]);
+    } else if n < 0x8000000 {
+        assert(((0xF0u64 | (n >> 24)) as u8) >= 0xf0 && ((0xF0u64 | (n >> 24)) as u8) < 0xf8
+            && ((((((0xF0u64 | (n >> 24)) as u8) & 0x0f) as u64) * 256 + ((((n >> 16) & 0xff) as u8) as u64)) * 256 + ((((n >> 8) & 0xff) as u8) as u64)) * 256 + (((n & 0xff) as u8) as u64) == n) by(bit_vector) requires 0x100000 <= n < 0x8000000;
+        let s1 = seq![b0 & 0x0f];
+        let s2 = s1.push(p[1]);
+        let s3 = s2.push(p[2]);
+        assert(seq![b0 & 0x0f] + p.subrange(1, 4) =~= s3.push(p[3]));
+        lemma_be_single(b0 & 0x0f);
+        lemma_be_push(s1, p[1]);
+        lemma_be_push(s2, p[2]);
+        lemma_be_push(s3, p[3]);
+    } else {
+        assert(((0xF8u64 | (n >> 32)) as u8) >= 0xf8 && ((0xF8u64 | (n >> 32)) as u8) < 0xfc
+            && (((((((0xF8u64 | (n >> 32)) as u8) & 0x07) as u64) * 256 + ((((n >> 24) & 0xff) as u8) as u64)) * 256 + ((((n >> 16) & 0xff) as u8) as u64)) * 256 + ((((n >> 8) & 0xff) as u8) as u64)) * 256 + (((n & 0xff) as u8) as u64) == n) by(bit_vector) requires 0x8000000 <= n < 0x400000000;
+        let s1 = seq![b0 & 0x07];
+        let s2 = s1.push(p[1]);
+        let s3 = s2.push(p[2]);
+        let s4 = s3.push(p[3]);
+        assert(seq![b0 & 0x07] + p.subrange(1, 5) =~= s4.push(p[4]));
+        lemma_be_single(b0 & 0x07);
+        lemma_be_push(s1, p[1]);
+        lemma_be_push(s2, p[2]);
+        lemma_be_push(s3, p[3]);
+        lemma_be_push(s4, p[4]);
+    }
+}
+
+// C08 (lossless, atoms of every length class): decoding what was encoded returns the atom and
+// consumes exactly the encoding, whatever follows it in the stream
+pub proof fn lemma_dec_enc_atom(a: Seq<u8>, tail: Seq<u8>)
+    requires a.len() < 0x400000000
+    ensures ({
+        let e = enc_atom(a) + tail;
+        dec_atom(e[0], e.subrange(1, e.len() as int)) == Some((a, enc_atom(a).len() - 1))
+    })
+{
+    let e = enc_atom(a) + tail;
+    let rest = e.subrange(1, e.len() as int);
+    if a.len() == 0 {
+        assert(a =~= Seq::<u8>::empty());
+    } else if a.len() == 1 && a[0] <= 0x7f {
+        assert(a =~= seq![a[0]]);
+    } else {
+        let n = a.len() as u64;
+        let p = size_prefix(n);
+        let k = size_prefix_len(n);
+        lemma_prefix_decodes(n);
+        assert(e[0] == p[0]);
+        assert(rest.subrange(0, k - 1) =~= p.subrange(1, k));
+        assert(rest.subrange(k - 1, k - 1 + n) =~= a);
+    }
+}
